@@ -39,6 +39,16 @@ NOTES = {
  "C15-3": "missed by C15 at first (the future leader never looked at the lock before taking it); nodes standing by now poll the lock during the old leader's term as client-go's election loop does, and a third of the fail-over cases continue with a second fail-over to a third node",
  "C17-3": "missed by C17 at first (events were only created once); some events are now deleted and created again before the first compaction, so the index record that must expire was written over a deletion marker",
  "C18-3": "missed by C18 at first (watches were opened from the next revision only); etcd and native watches from revision 0 ('from now') were added to the role matrix",
+ "C02-4": "caught as it was (C02 header >= data on concurrent lists); the same site as seeds C06-2 / C16-4 seen from another property",
+ "C04-4": "not caught by C04 itself: the hub dead-locks only once a subscriber's buffer overflows (10 100 undelivered batches) and reads stall only after 100 000 more batches; C04's workload has no watchers. C05's overflow cases catch it at once (open-stream-stopped-short), as do C19's overflow workloads and C20's tour",
+ "C05-4": "missed by C05 at first (every node under test had written its own history, so its event cache was never empty at a non-zero revision); every 5th stress case now replaces the node by a fresh backend over the same store (restart / fail-over) and asks for watches from exactly the current revision, just below, the next one and zero on every prefix",
+ "C06-4": "the same change as seed C05-2 (filterByPrefix filtering in place), produced independently for C06; caught by C06 as it was",
+ "C08-4": "missed by C08 at first (requests were issued one after the other); every 8th C08 case now overlaps two compaction requests, the first held at a read of / write to the compaction record. This exposed defect 24 on the unchanged tree (fixed in 61c5f44); the seed was rebased onto the fixed tree (patch.original.diff is the sub-agent's patch against 1ef9d67)",
+ "C09-4": "caught as it was (C09's second-order faults on the repair write + event payload check)",
+ "C13-4": "caught as it was (C13 per-advertised-partition streams; C03 on partitioned engines)",
+ "C16-4": "the same change as seed C06-2 (List reads the revision again for the header), produced independently for C16; missed by C16 at first (its concurrent cases had no readers) -> two concurrent etcd Range readers were added whose answers must be the key's state at their header revision; C06 and C04 caught it as it was",
+ "C19-4": "the same change as seed C05-2, produced independently for C19; caught as it was",
+ "C20-4": "caught as it was (a negative limit is one of C20's hostile values; the panic in a scanner worker goroutine kills the worker, which the driver reports as a crash)",
  "C20-3": "missed by C20 at first: the node ends the process through klog.Fatal, which the driver used to classify as an inconclusive child death; the worker now lets klog FATAL lines through to stderr and the driver reports 'crash klog.Fatal in <file>' as a violation (except the deliberate 'leader lost' exit)",
 }
 for d in sorted(glob.glob('/verif/seeded/C*')):
